@@ -14,6 +14,31 @@ import sys
 import time
 
 
+def tmp_cleaned(fn):
+    """Decorator for child functions that write modules to a temporary directory: what tempfile.mkdtemp made during the call is
+    removed when the call ends (the modules are imported by then)."""
+    import functools
+
+    @functools.wraps(fn)
+    def run(job):
+        import shutil
+        import tempfile
+        made, orig = [], tempfile.mkdtemp
+
+        def mk(*a, **k):
+            p_ = orig(*a, **k)
+            made.append(p_)
+            return p_
+        tempfile.mkdtemp = mk
+        try:
+            return fn(job)
+        finally:
+            tempfile.mkdtemp = orig
+            for p_ in made:
+                shutil.rmtree(p_, ignore_errors=True)
+    return run
+
+
 def _child(fn, job, wfd):
     try:
         try:
